@@ -70,12 +70,32 @@ func RunBitPairs(w *World, r *Report, pkgRel, decName, encName string) {
 				walk(s, fields)
 			}
 		case *ast.IfStmt:
-			f := fieldOf(x.Cond)
+			// `if info.B {T} else {E}` and its inverted twin `if !info.B {E} else {T}`
+			cond, negated := x.Cond, false
+			for {
+				if pe, ok := cond.(*ast.ParenExpr); ok {
+					cond = pe.X
+					continue
+				}
+				if ue, ok := cond.(*ast.UnaryExpr); ok && ue.Op == token.NOT {
+					cond, negated = ue.X, !negated
+					continue
+				}
+				break
+			}
+			f := fieldOf(cond)
+			var whenTrue, whenFalse ast.Node = x.Body, x.Else
+			if negated {
+				whenTrue, whenFalse = x.Else, x.Body
+			}
+			if whenTrue == ast.Node((*ast.BlockStmt)(nil)) {
+				whenTrue = nil
+			}
 			if f != "" {
-				walk(x.Body, append(append([]string{}, fields...), f))
-				// the else branch is under !f: bits set there do not belong to f
+				walk(whenTrue, append(append([]string{}, fields...), f))
+				// the other branch is under !f: bits set there do not belong to f
 				negs = append(negs, f)
-				walk(x.Else, fields)
+				walk(whenFalse, fields)
 				negs = negs[:len(negs)-1]
 			} else {
 				walk(x.Body, fields)
